@@ -33,12 +33,23 @@ func GenC12(verifSeed uint64, run int) *Scenario {
 		plan.Clients = append(plan.Clients, c)
 	}
 	// clients of an independently parsed Config: any formats
-	if g.Bool(0.4) && len(plan.Clients) < 6 {
+	if g.Bool(0.5) && len(plan.Clients) < 6 {
 		plan.NConfigs = 2
 		m := g.Range(1, 2)
 		for i := 0; i < m && len(plan.Clients) < 6; i++ {
-			plan.Clients = append(plan.Clients, Client{ID: len(plan.Clients), Config: 1, Format: Pick(g, Formats), Kind: "package", Name: g.Bool(0.3)})
+			// mostly a format that is also being built from the shared
+			// Config: two packagings of one format at once is what exposes
+			// per-packager process-wide state
+			f := Pick(g, Formats)
+			if g.Bool(0.65) {
+				f = plan.Clients[g.Intn(n)].Format
+			}
+			plan.Clients = append(plan.Clients, Client{ID: len(plan.Clients), Config: 1, Format: f, Kind: "package", Name: g.Bool(0.3)})
 		}
+	}
+	for i := range plan.Clients {
+		// a caller's build pipeline may validate before it packages
+		plan.Clients[i].Validate = g.Bool(0.3)
 	}
 	for i := range plan.Clients {
 		c := &plan.Clients[i]
@@ -87,6 +98,7 @@ type c12client struct {
 	signer *SimSigner
 	res    BuildResult
 	getErr error
+	valErr  error
 	prepErr error
 	name   string
 	spin   int
@@ -105,6 +117,10 @@ func siteCode(site string) int {
 
 // body is what one client executes (real nfpm calls only).
 func (c *c12client) body(yield func(code int)) {
+	if c.plan.Validate {
+		c.valErr = c.cfg.Validate()
+		yield(siteAfterName)
+	}
 	info, err := c.cfg.Get(c.plan.Format)
 	if err != nil {
 		c.getErr = err
@@ -231,19 +247,30 @@ func RunC12(rt *Runtime, sc *Scenario) RunResult {
 		clients[i] = c
 	}
 
+	// The concurrent phase runs at the same simulated instant as the
+	// sequential reference: the only thing that differs between the two is
+	// concurrency (a clock-dependent output is C07's to report, not C12's).
 	var schedule []Switch
 	var trace []string
-	switch plan.Mode {
-	case "free":
-		runFree(clients)
-		res.Counters["runs_free"]++
-	default:
-		var trouble string
-		schedule, trace, trouble = runBaton(clients, plan)
-		if trouble != "" {
-			res.Trouble = trouble
-			return res
+	var trouble string
+	leaked := rt.InBubble(SimNow, func() {
+		switch plan.Mode {
+		case "free":
+			runFree(clients)
+		default:
+			schedule, trace, trouble = runBaton(clients, plan)
 		}
+	})
+	if leaked {
+		res.Counters["bubble_goroutine_leak"]++
+	}
+	if trouble != "" {
+		res.Trouble = trouble
+		return res
+	}
+	if plan.Mode == "free" {
+		res.Counters["runs_free"]++
+	} else {
 		res.Counters["runs_baton"]++
 		res.Counters["context_switches"] += int64(len(schedule))
 		res.Counters["yields"] += int64(len(trace))
